@@ -156,6 +156,13 @@ static void print_cb(void *arg, ABT_thread th)
     pr->n++;
 }
 
+static void print_unit_cb(void *arg, ABT_unit unit)
+{
+    ABT_thread th = ABT_THREAD_NULL;
+    ABT_OK(ABT_unit_get_thread(unit, &th));
+    print_cb(arg, th);
+}
+
 static void do_op(client *c, int op, int arg)
 {
     ABT_pool_context pushctx = push_end(arg) == LIN_HEAD ? ABT_POOL_CONTEXT_OP_THREAD_CREATE : ABT_POOL_CONTEXT_OP_POOL_OTHER;
@@ -187,7 +194,7 @@ static void do_op(client *c, int op, int arg)
              * client, exactly the units that are inside */
             print_rec PR;
             memset(&PR, 0, sizeof PR);
-            int rc = ABT_pool_print_all_threads(S.pool, &PR, print_cb);
+            int rc = (arg & 1) ? ABT_pool_print_all(S.pool, &PR, print_unit_cb) : ABT_pool_print_all_threads(S.pool, &PR, print_cb);
             SIM_CHECK(rc == ABT_SUCCESS, "pool:print", "ABT_pool_print_all_threads returned %d", rc);
             SIM_CHECK(PR.foreign == 0, "pool:print", "ABT_pool_print_all_threads showed %d handles that were never pushed to the pool", PR.foreign);
             for (int t = 0; t < S.ntok; t++) {
